@@ -138,6 +138,16 @@ def check_text(check, name, pi, pc, value, want_sort=None, decl=None, ops=(), cv
     return results
 
 
+def listed_obligation(check, name, pi, p, node, ops):
+    """class invariant of effects / hybrids: every operand whose text the emitter reads is in the node's operand list
+    (effect_ops / ops) - the declaration order 'operands before their user' and the pending-effect lookup are computed from that list"""
+    if not isinstance(node, Obj):
+        return
+    listed = list(node.fields.get("effect_ops") or []) + list(node.fields.get("ops") or [])
+    missing = [getattr(o, "label", repr(o)) for o in ops if isinstance(o, Obj) and (o.ghost.get("nreads", 0) or o.ghost.get("nuses", 0)) and not any(o is x for x in listed)]
+    check.ob(f"{name}#children: every operand the emitter reads is in the node's operand list", pi, p.ctx.pc, not missing, detail=f"read but not listed: {missing}")
+
+
 def gen_macro_table(loader, check, replay_on=True):
     """Data obligations: the macro table the compiler loads (qemu_rzil_macros.json) declares, for every helper the shortcode calls, the
     parameter and return types of its prototype (spec/hexagon.MACRO_PROTOTYPES, T-PLUGIN) - argument conversion and the sort of the
@@ -410,6 +420,7 @@ def _gen_misc_nodes(loader, check, replay_on=True):
                 check.ob("MemLoad.il_exec#total", pi, p.ctx.pc, p.outcome == "return")
                 if p.outcome == "return":
                     res = check_text(check, "MemLoad.il_exec", pi, p.ctx.pc, p.value, want_sort=("bv", w), ops=p.state["ops"])
+                    listed_obligation(check, "MemLoad.il_exec", pi, p, p.state["n"], p.state["ops"])
                     t = emit.as_tpl(p.value)
                     check.ob("MemLoad.il_exec#binding.LOADW-width-and-address", pi, p.ctx.pc,
                              len(t.parts) == 3 and t.parts[0] == f"LOADW({w}, " and isinstance(t.parts[1], Atom) and t.parts[1].tag == "ea" and t.parts[2] == ")",
@@ -425,6 +436,7 @@ def _gen_misc_nodes(loader, check, replay_on=True):
                 check.ob("MemStore.il_write#total", pi, p.ctx.pc, p.outcome == "return")
                 if p.outcome == "return":
                     check_text(check, "MemStore.il_write", pi, p.ctx.pc, p.value, want_sort="effect", ops=p.state["ops"])
+                    listed_obligation(check, "MemStore.il_write", pi, p, p.state["n"], p.state["ops"])
                     t = emit.as_tpl(p.value)
                     tags = [a.tag for a in t.atoms()]
                     check.ob("MemStore.il_write#binding.STOREW(address, data)", pi, p.ctx.pc, tags == ["ea", "data"] and t.parts[0] == "STOREW(", detail=t.render(lambda a: a.tag))
@@ -438,6 +450,7 @@ def _gen_misc_nodes(loader, check, replay_on=True):
         check.ob("Jump.il_write#total", pi, p.ctx.pc, p.outcome == "return")
         if p.outcome == "return":
             check_text(check, "Jump.il_write", pi, p.ctx.pc, p.value, want_sort="effect", ops=p.state["ops"], locals_w={"jump_target": 32})
+            listed_obligation(check, "Jump.il_write", pi, p, p.state["n"], p.state["ops"])
             t = emit.as_tpl(p.value)
             check.ob("Jump.il_write#binding.sets-taken-flag-and-32-bit-target", pi, p.ctx.pc,
                      t.render(lambda a: "@") == 'SEQ2(SETL("jump_flag", IL_TRUE), SETL("jump_target", @))', detail=t.render(lambda a: a.tag))
